@@ -1,0 +1,34 @@
+//go:build verif
+
+package p2p
+
+import (
+	"crypto/ecdh"
+	"crypto/rand"
+	"net"
+)
+
+// Verification hooks (build tag verif): a P2P value that does not listen, dial or touch the peer list file,
+// and a way to hand it an already established net.Conn. No logic of its own: VerifAttach is exactly what
+// ListenServer (outgoing=false) and startClient (outgoing=true) do with a fresh socket.
+
+const VerifMaxFrameSize = 1024 * 1024 * 4 // the literal of the read loop in connectionMainHandling; compared with the code's behaviour by the harness
+
+func VerifNew() *P2P {
+	pk, err := ecdh.X25519().GenerateKey(rand.Reader)
+	if err != nil {
+		panic(err)
+	}
+	return &P2P{
+		Privkey:        pk,
+		PacketsIn:      make(chan Packet),
+		NewConnections: make(chan *Connection),
+		Connections:    make(map[string]*Connection),
+	}
+}
+
+// VerifAttach = NewConnection + handleConnection (private: the handshake announces port 0).
+func (p *P2P) VerifAttach(c net.Conn, outgoing bool) (*Connection, error) {
+	conn := NewConnection(c, outgoing)
+	return conn, p.handleConnection(conn, true)
+}
